@@ -142,6 +142,8 @@ type liveConn struct {
 type liveScn struct {
 	Network string     `json:"network"`
 	Conns   []liveConn `json:"conns"`
+	// BufSize > 0: Configure(Config{BufferSize}) - the size of a new connection's first input node
+	BufSize int `json:"bufsize,omitempty"`
 }
 
 func genLiveScn(t *rapid.T, big bool) liveScn {
@@ -149,6 +151,7 @@ func genLiveScn(t *rapid.T, big bool) liveScn {
 	if !hasIPv6() && s.Network == "tcp6" {
 		s.Network = "tcp4"
 	}
+	s.BufSize = rapid.SampledFrom([]int{0, 0, 128, 1024, 4096}).Draw(t, "bufsize")
 	nc := rapid.IntRange(1, 4).Draw(t, "nconns")
 	for i := 0; i < nc; i++ {
 		c := liveConn{}
@@ -373,6 +376,12 @@ const (
 // runLive executes one bulk scenario; returns a failure description or "".
 func runLive(s liveScn) (sig, msg string) {
 	e3Init()
+	if s.BufSize > 0 {
+		// what Configure(Config{BufferSize: n}) does; restored for the next case
+		old := defaultLinkBufferSize
+		defaultLinkBufferSize = s.BufSize
+		defer func() { defaultLinkBufferSize = old }()
+	}
 	ln, addr, err := e3Listen(s.Network)
 	if err != nil {
 		return "", "" // cannot listen here (e.g. no IPv6): not a verdict
@@ -1388,7 +1397,10 @@ func runDial(s dialScn) (sig, msg string, timedOut, failed int) {
 			return "timeout-ignored", fmt.Sprintf("dial %d took %v with a %v timeout", i, r.took, timeout), 0, 0
 		}
 		if r.err == errSweepClosed {
-			if s.Target == "refused" || s.Target == "blackhole" {
+			// On the even refusing port of the refused-port sweep a dial can succeed: the kernel picked the
+			// destination port as source port (TCP self-connect) three times in a row, and the dialer gives
+			// up retrying after two, as package net does. Seen once in 4 x 7 x 12000 dials.
+			if (s.Target == "refused" && s.Sweep < 1000) || s.Target == "blackhole" {
 				return "impossible-success", fmt.Sprintf("dial %d to a %s target succeeded", i, s.Target), timedOut, failed
 			}
 			continue // a successful dial of a sweep: closed at once
@@ -2382,6 +2394,7 @@ func TestVerifC19(t *testing.T) {
 		switch kind {
 		case "bulk":
 			s := genLiveScn(t, false)
+			s.BufSize = 0 // the global default is not changed while pollers of other cases may still read it
 			for i := range s.Conns {
 				if s.Conns[i].Total > 200000 {
 					s.Conns[i].Total = 200000
